@@ -90,6 +90,15 @@ def probes() -> list[Item]:
               [("PUSH", 9)] + runtime_hash(2) + [("PUSH", 0), "CALLDATALOAD", "ADD", "SSTORE", ("PUSHN", 32, (k32(2) + far) % 2**256), "SLOAD"])
     it.inputs = [{"cd0": far}, {"cd0": 0}, {"cd0": far - 1}]
     out.append(it)
+    # mapping with a short (5-byte) key at slot 1: stored under a symbolic key, loaded under a concrete key hashed at run
+    # time (for cd0 = 0 both keys are five zero bytes)
+    def short_map(key_code):
+        return key_code + [("PUSH", 0x200), "MSTORE", ("PUSH", 1), ("PUSH", 0x205), "MSTORE", ("PUSH", 37), ("PUSH", 0x200), "SHA3"]
+
+    body = [("PUSH", 0xAA)] + short_map([("PUSH", 0), "CALLDATALOAD"]) + ["SSTORE"] + short_map([("PUSH", 0)]) + ["SLOAD"]
+    code = assemble(body + [("PUSH", 0), "MSTORE", ("PUSH", 32), ("PUSH", 0), "RETURN"])
+    out.append(Item(Prog(accounts={TARGET: code}, calldata=[Sym("cd0", 256)], name="short-key-concrete-vs-symbolic"),
+                    [{"cd0": 0}, {"cd0": 5}, {"cd0": 1 << 255}], key="probe:short-key-concrete-vs-symbolic"))
     # a[n-1] the way the optimiser writes it, (keccak(2) - 1) + n, against keccak(2) + m with m = n - 1
     body = runtime_hash(2) + ["POP", ("PUSH", 0xAA), ("PUSHN", 32, (k32(2) - 1) % 2**256), ("PUSH", 0), "CALLDATALOAD", "ADD", "SSTORE"] + \
         runtime_hash(2) + [("PUSH", 32), "CALLDATALOAD", "ADD", "SLOAD"]
